@@ -355,6 +355,9 @@ class _Beam(_IModel):
         u = simu._Get_u_n(simu.problemType, asCsrMatrix=True)
         integral = (u.T @ f)[0, 0]
         kappa = bending_inertia**2 / (section.area * integral)
+        # the auxiliary simulation registered itself as an observer of the section mesh: release it,
+        # otherwise the beam keeps it alive (and can no longer be pickled: its forms are local functions)
+        section._Remove_observer(simu)
         return kappa
 
 
